@@ -343,5 +343,7 @@ impl KademliaPeer {
         KademliaPeer { key: Key::from_bytes_verif(key_bytes, peer), peer, address_store: AddressStore::new(), connection }
     }
     pub fn peer_id_verif(&self) -> PeerId { self.peer }
+    pub fn is_connected_verif(&self) -> bool { std::matches!(self.connection, ConnectionType::Connected) }
+    pub fn has_addresses_verif(&self) -> bool { !self.address_store.is_empty() }
     pub fn key_verif(&self) -> &Key<PeerId> { &self.key }
 }
